@@ -58,6 +58,13 @@ def items(tier, seed):
         for meth in NLM:
             its.append(("args", (m, meth)))
             its.append(("map", (m, meth)))
+    # the solve under test as the SECOND solve of a problem object edited in between
+    for im, m in enumerate(LM.solve_models(tier)):
+        if not m["cons"] or (tier == "quick" and im % 2 and "late" not in m["tag"]):
+            continue
+        for h in ("narrow-first", "add-last", "reobj"):
+            for meth in (["SLSQP", "trust-constr"] if tier == "quick" else NLM):
+                its.append(("args", (m, meth, False, h)))
     its.sort(key=lambda it: -(len(it[1][0]["cons"]) * 10 + (5 if it[1][1] in ("SLSQP", "auto") else 0)) if it[0] == "map" else -1000 if it[0] == "twin" else 0)
     return its
 
@@ -81,17 +88,18 @@ def expected_auto(model):
     return {"SLSQP", "trust-constr"}
 
 
-def args_obligations(model, method, planted=False):
+def args_obligations(model, method, planted=False, hist=None):
     from vf.engine import smt
     from vf.engine.sym import SReal, SymbolicConcretisation
     res = []
     names = LM.model_names(model)
     allv = names["vars"] + names["syms"] + names["params"]
     val = K.sym_val(allv)
-    tag = f"{model['tag']}/{method}"
-    form = model["tag"]
-    for dec, labels, pc, o in K.explore(lambda: SV.solve_observe(model, val, method, mode="fixed"), max_paths=600):
-        payload = dict(kind="args", model=K.enc(model), method=method)
+    tag = f"{model['tag']}/{method}" + (f"/after {hist}" if hist else "")
+    form = model["tag"] + (f"|{hist}" if hist else "")
+    observe = (lambda: SV.solve_observe(model, val, method, mode="fixed")) if hist is None else (lambda: SV.solve_observe_hist(model, val, method, hist, mode="fixed"))
+    for dec, labels, pc, o in K.explore(observe, max_paths=600):
+        payload = dict(kind="args", model=K.enc(model), method=method, hist=hist)
         if o.exc is not None:
             if isinstance(o.exc, SymbolicConcretisation):
                 res.append(harness_error(f"concretisation: {o.exc}", item=tag))
@@ -196,7 +204,18 @@ def replay(payload):
         old = ss.minimize
         ss.minimize = fake_min
         try:
-            p, b = LM.build_model(model, val)
+            if payload.get("hist"):
+                p, b, finish = LM.build_model_staged(model, val, payload["hist"])
+                with warnings.catch_warnings():
+                    warnings.simplefilter("ignore")
+                    try:
+                        p.solve(method=method)
+                    except Exception:  # noqa: BLE001
+                        pass
+                finish()
+                del captured[:]
+            else:
+                p, b = LM.build_model(model, val)
             with warnings.catch_warnings():
                 warnings.simplefilter("ignore")
                 try:
@@ -216,6 +235,16 @@ def replay(payload):
             if sol.status.name != "OPTIMAL" and feas:
                 return True, f"converged, feasible reply mapped to {sol.status.name}"
             return False, "mapping fine on replay"
+        if payload["kind"] == "shape":
+            msg = SV.shapes_wrong(call, len(cols))
+            if msg:
+                return True, msg
+            continue
+        if payload["kind"] == "callable-raises":
+            msg = SV.callables_raise(call, len(cols))
+            if msg:
+                return True, msg
+            continue
         if payload["kind"] == "raises":
             return True, "structural difference (see what)"
         s = 1.0 if model["sense"] == "min" else -1.0
